@@ -2710,7 +2710,7 @@ impl World {
         let base = crate::hist_oracle::clone_world(self);
         let mut fx = Fx::from_world(&base, None, None, false, false, 1_000);
         let t22 = anchor_spl::token_2022::ID;
-        let tokp = if kind == 1 { anchor_spl::token::ID } else { t22 };
+        let tokp = if kind == 1 || kind == 4 { anchor_spl::token::ID } else { t22 };
         let pmint = k(0x65, kind);
         let (position, bump) = Pubkey::find_program_address(&[b"position", pmint.as_ref()], &::whirlpool::ID);
         let owner = if owner_is_funder { fx.trader } else { k(0x63, 11) };
@@ -2732,9 +2732,38 @@ impl World {
         }
         let upd_auth = ::whirlpool::constants::nft::whirlpool_nft_update_auth::ID;
         fx.bank.set(upd_auth, sysid, 1_000_000, vec![]);
+        fx.bank.set_program(anchor_spl::metadata::ID);
         let bank0 = fx.bank.clone();
         let in_i32 = |x: i64| x.clamp(i32::MIN as i64, i32::MAX as i64) as i32;
-        let (metas, data): (Vec<Meta>, Vec<u8>) = if kind == 1 {
+        let meta_pid = anchor_spl::metadata::ID;
+        let metadata_pda = Pubkey::find_program_address(&[b"metadata", meta_pid.as_ref(), pmint.as_ref()], &meta_pid).0;
+        let (metas, data): (Vec<Meta>, Vec<u8>) = if kind == 4 {
+            // open_position_with_metadata: the Metaplex program is a stand-in (svm.rs `metadata_program`)
+            let acc = ::whirlpool::accounts::OpenPositionWithMetadata {
+                funder: fx.trader,
+                owner,
+                position,
+                position_mint: pmint,
+                position_metadata_account: metadata_pda,
+                position_token_account: ata,
+                whirlpool: fx.pool,
+                token_program: anchor_spl::token::ID,
+                system_program: sysid,
+                rent: rent_id,
+                associated_token_program: anchor_spl::associated_token::ID,
+                metadata_program: meta_pid,
+                metadata_update_auth: upd_auth,
+            };
+            (
+                acc.to_account_metas(None).iter().map(Meta::from).collect(),
+                ::whirlpool::instruction::OpenPositionWithMetadata {
+                    bumps: ::whirlpool::state::OpenPositionWithMetadataBumps { position_bump: bump, metadata_bump: 0 },
+                    tick_lower_index: in_i32(lo),
+                    tick_upper_index: in_i32(hi),
+                }
+                .data(),
+            )
+        } else if kind == 1 {
             let acc = ::whirlpool::accounts::OpenPosition {
                 funder: fx.trader,
                 owner,
@@ -2826,9 +2855,30 @@ impl World {
                 if td.len() < 165 || token_amount(&td) != 1 || td[32..64] != owner.to_bytes() || td[0..32] != pmint.to_bytes() {
                     viols.push("C18 the owner's associated token account does not hold exactly one position token".to_string());
                 }
+                if kind == 4 {
+                    // the metadata account the (stand-in) Metaplex program was asked to create: for THIS mint, with the
+                    // program's update authority, naming the position in its URI
+                    let m = fx.bank.get(&metadata_pda);
+                    let want_uri = format!("{}/{}", ::whirlpool::constants::nft::WP_METADATA_URI, position);
+                    if m.owner != meta_pid || m.data.len() < 65 {
+                        viols.push("C18 open_position_with_metadata did not create the position's metadata account".to_string());
+                    } else {
+                        if m.data[1..33] != upd_auth.to_bytes() {
+                            viols.push("C18/C15 the position metadata's update authority is not the program's".to_string());
+                        }
+                        if m.data[33..65] != pmint.to_bytes() {
+                            viols.push("C18 the metadata account was created for another mint".to_string());
+                        }
+                        let hay = &m.data[65..];
+                        if !hay.windows(want_uri.len()).any(|w| w == want_uri.as_bytes()) {
+                            viols.push("C18 the position metadata does not name the position in its URI".to_string());
+                        }
+                    }
+                }
                 tags.push(match kind {
                     1 => "open_ok",
                     2 => "open_ext_ok",
+                    4 => "open_metadata_ok",
                     _ => "open_ext_meta_ok",
                 });
                 format!("ok {} {}", rlo, rhi)
